@@ -488,6 +488,37 @@ theorem mem_accepted_iff (ds : List (Bool × Bool)) (chs : List Str) (ch : Str) 
   · rintro ⟨p, ⟨h1, h2⟩, h3⟩; exact ⟨p, h1, h2, h3⟩
   · rintro ⟨p, h1, h2, h3⟩; exact ⟨p, ⟨h1, h2⟩, h3⟩
 
+/-- a channel accepted by the decision loop is one the user is not yet on -/
+theorem accepted_not_member (w : World) (n : Str) :
+    ∀ (ds : List (Bool × Bool)) (chs : List Str), DecOK w n ds chs →
+      ∀ ch, ch ∈ accepted ds chs → w.memOf ch n = false := by
+  intro ds
+  induction ds with
+  | nil => intro chs _ ch h; simp [accepted] at h
+  | cons d ds ih =>
+    intro chs hd ch hch
+    obtain ⟨j, cr⟩ := d
+    cases chs with
+    | nil => simp [accepted] at hch
+    | cons a rest =>
+      rw [accepted_cons] at hch
+      obtain ⟨hd1, hd2⟩ := hd
+      cases j with
+      | false => exact ih rest hd2 ch hch
+      | true =>
+        simp only [↓reduceIte, List.mem_cons] at hch
+        rcases hch with rfl | hch
+        · have := hd1 rfl
+          cases cr with
+          | true =>
+            simp only [↓reduceIte] at this
+            exact World.memOf_of_none this n
+          | false =>
+            simp only [Bool.false_eq_true, ↓reduceIte] at this
+            obtain ⟨C0, hC0, hnc⟩ := this
+            rw [World.memOf_of_lookup hC0]; exact hnc
+        · exact ih rest hd2 ch hch
+
 /-- what the announcement loop of JOIN queues: for every accepted channel, one line to every member
     of the channel OTHER than the joiner -/
 def joinQueue {β : Type} (w : World) (n : Str) (line : Str → β) (acc : List Str) : List (Nat × β) :=
@@ -612,6 +643,66 @@ theorem processJoin_closed {cfg : Cfg} {c : Nat} {channels : List Str} {keys : O
     rw [Irc.srvLine_eq]; rfl
   · rw [hyw, hann]
     simp only [Ctx.modifyW_queued, C07.foldl_reply]
+
+/-- the world after a JOIN is the result of the insert loop -/
+theorem processJoin_w {cfg : Cfg} {c : Nat} {channels : List Str} {keys : Option (List Str)} {x : Ctx}
+    {n : Str} {u : User} (h : InvCore x.w) (hn : (x.conn c).nick = some n)
+    (hu : Map.lookup n x.w.users = some u) :
+    (processJoin cfg c channels keys x).w =
+      joinApply n (joinDecisions cfg c channels keys x n u) channels x.w := by
+  have hM := InvCore.memInv h
+  have hdec : DecOK x.w n (joinDecisions cfg c channels keys x n u) channels :=
+    joinDecide_ok cfg x.w (x.conn c) n u.invitedTo channels (joinKeyList keys) u.channels.length
+  obtain ⟨h1, _, e1⟩ := joinApply_inv x.w n _ channels x.w hdec hM
+    ((Map.contains_iff _ _).mpr ⟨u, hu⟩) (JoinInv.init x.w n)
+  rw [Memb.processJoin_eq, hn]
+  dsimp only
+  rw [hu]
+  dsimp only
+  rw [joinAnnounce_w]
+  · simp only [Ctx.modifyW_w, reply_foldl_w]
+  · simp only [Ctx.modifyW_w, reply_foldl_w]; exact h1
+  · simp only [Ctx.modifyW_w, reply_foldl_w]
+    intro ch hj
+    have : (joinApply n (joinDecisions cfg c channels keys x n u) channels x.w).memOf ch n = true := by
+      rw [e1, hj]; simp
+    obtain ⟨C, hC, _⟩ := (World.memOf_iff _ _ _).mp this
+    exact (Map.contains_iff _ _).mpr ⟨C, hC⟩
+
+/-- JOIN of one existing channel that is accepted: the member list grows by the joiner at the end -/
+theorem processJoin_single_members {cfg : Cfg} {c : Nat} {ch : Str} {keys : Option (List Str)} {x : Ctx}
+    {n : Str} {u : User} (h : InvCore x.w) (hn : (x.conn c).nick = some n)
+    (hu : Map.lookup n x.w.users = some u) {C : Channel} (hC : Map.lookup ch x.w.channels = some C)
+    (hch : ch ∈ accepted (joinDecisions cfg c [ch] keys x n u) [ch]) :
+    accepted (joinDecisions cfg c [ch] keys x n u) [ch] = [ch] ∧
+    n ∉ members x.w ch ∧
+    members (processJoin cfg c [ch] keys x).w ch = members x.w ch ++ [n] := by
+  have hdec : DecOK x.w n (joinDecisions cfg c [ch] keys x n u) [ch] :=
+    joinDecide_ok cfg x.w (x.conn c) n u.invitedTo [ch] (joinKeyList keys) u.channels.length
+  have hnot := accepted_not_member x.w n _ _ hdec ch hch
+  rw [World.memOf_of_lookup hC] at hnot
+  have hds : ∃ j, joinDecisions cfg c [ch] keys x n u = [(j, false)] := by
+    unfold joinDecisions
+    rw [C07.joinDecide_cons]
+    simp only [C07.joinDecide_nil]
+    refine ⟨(C07.Spec.decideOne cfg x.w (x.conn c).source n (x.conn c).clientName u.invitedTo ch
+      (joinKeyList keys).head?.join u.channels.length).join, ?_⟩
+    simp [C07.Spec.decideOne, hC]
+  obtain ⟨j, hj⟩ := hds
+  rw [hj] at hch ⊢
+  rw [accepted_cons] at hch ⊢
+  cases j with
+  | false => simp [accepted] at hch
+  | true =>
+    have hnk : n ∉ Map.keys C.users := fun hk => by
+      rw [Map.contains_of_mem_keys hk] at hnot; cases hnot
+    refine ⟨by simp [accepted], by rw [members_of_lookup hC]; exact hnk, ?_⟩
+    have hw := processJoin_w (cfg := cfg) (channels := [ch]) (keys := keys) h hn hu
+    rw [hj, C07.joinApply_single n ch x.w C hC] at hw
+    have : Map.lookup ch (processJoin cfg c [ch] keys x).w.channels = some (C.addUser n) := by
+      rw [hw]; simp
+    rw [members_of_lookup this, members_of_lookup hC, C07.addUser_users]
+    exact C07.keys_insert_of_lookup_none _ _ _ ((Map.contains_false_iff _ _).mp hnot)
 
 /-- the NAMES reply for channel `ch` carrying the `(prefix, nick)` entries `es`: 353 lines with 20 entries
     each, then 366 -/
@@ -840,5 +931,812 @@ theorem nick_line_canonical (msg : Message) (src new : Str) (hc : msg.command = 
   rw [hc, hp]
   simp only [renderParams, hplain, Bool.false_eq_true, ↓reduceIte]
   simp [str]
+
+/-! ## membership / multiplicity in the JOIN and KICK queues -/
+
+theorem mem_joinQueue_iff {β : Type} (w : World) (n : Str) (line : Str → β) (acc : List Str) (o : Nat)
+    (l : β) :
+    (o, l) ∈ joinQueue w n line acc ↔
+      ∃ ch, ch ∈ acc ∧ l = line ch ∧ ∃ m, m ∈ members w ch ∧ m ≠ n ∧ ownerOf w m = o := by
+  simp only [joinQueue, List.mem_flatMap, List.mem_map, List.mem_filter, bne_iff_ne, ne_eq,
+    Prod.mk.injEq]
+  constructor
+  · rintro ⟨ch, hch, m, ⟨hm, hne⟩, ho, hl⟩; exact ⟨ch, hch, hl.symm, m, hm, hne, ho⟩
+  · rintro ⟨ch, hch, hl, m, hm, hne, ho⟩; exact ⟨ch, hch, m, ⟨hm, hne⟩, ho, hl.symm⟩
+
+theorem joinLine_inj (src : Str) {ch ch' : Str} (h : C07.joinLine src ch = C07.joinLine src ch') :
+    ch = ch' := by
+  unfold C07.joinLine at h
+  simp only [List.append_assoc] at h
+  exact List.append_cancel_left (List.append_cancel_left (List.append_cancel_left h))
+
+/-- every member other than the joiner gets the JOIN line of `ch` as often as `ch` was accepted (once,
+    unless the same channel was listed and accepted several times in one JOIN) -/
+theorem count_joinQueue {β : Type} [BEq β] [LawfulBEq β] {w : World} (h : InvCore w) (n : Str)
+    (line : Str → β) (hinj : ∀ a b, line a = line b → a = b) {ch m : Str} (hm : m ∈ members w ch)
+    (hne : m ≠ n) (acc : List Str) :
+    List.count (ownerOf w m, line ch) (joinQueue w n line acc) = List.count ch acc := by
+  induction acc with
+  | nil => simp [joinQueue]
+  | cons a rest ih =>
+    have hstep : joinQueue w n line (a :: rest) =
+        ((members w a).filter (· != n)).map (fun m' => (ownerOf w m', line a)) ++
+          joinQueue w n line rest := by simp [joinQueue]
+    rw [hstep, List.count_append, ih, List.count_cons]
+    by_cases e : a = ch
+    · subst e
+      have h1 : List.count (ownerOf w m, line a)
+          (((members w a).filter (· != n)).map (fun m' => (ownerOf w m', line a))) = 1 := by
+        apply count_map_of_inj_on (fun m' => (ownerOf w m', line a)) _ m
+          ((members_nodup h a).filter _) _ (List.mem_filter.mpr ⟨hm, by simpa using hne⟩)
+        intro b hb he
+        simp only [Prod.mk.injEq, and_true] at he
+        exact ownerOf_inj h (members_are_users (InvCore.memInv h) (List.mem_filter.mp hb).1)
+          (members_are_users (InvCore.memInv h) hm) he
+      rw [h1]; simp; omega
+    · have h0 : List.count (ownerOf w m, line ch)
+          (((members w a).filter (· != n)).map (fun m' => (ownerOf w m', line a))) = 0 := by
+        rw [List.count_eq_zero]
+        intro hmem
+        obtain ⟨b, _, he⟩ := List.mem_map.mp hmem
+        simp only [Prod.mk.injEq] at he
+        exact e (hinj _ _ he.2)
+      rw [h0]; simp [e]
+
+theorem mem_kickQueue_iff {β : Type} (w w' : World) (channel : Str) (line : Str → β) (kicked : List Str)
+    (o : Nat) (l : β) :
+    (o, l) ∈ kickQueue w w' channel line kicked ↔
+      ∃ v, v ∈ kicked ∧ l = line v ∧ ∃ m, (m ∈ members w' channel ∨ m = v) ∧ ownerOf w m = o := by
+  simp only [kickQueue, List.mem_flatMap, List.mem_map, List.mem_append, List.mem_singleton,
+    Prod.mk.injEq]
+  constructor
+  · rintro ⟨v, hv, m, hm, ho, hl⟩; exact ⟨v, hv, hl.symm, m, hm, ho⟩
+  · rintro ⟨v, hv, hl, m, hm, ho⟩; exact ⟨v, hv, m, hm, ho, hl.symm⟩
+
+/-! ## 5. the client side: announcements and the reconstructed roster -/
+
+/-- what a client learns about channel rosters, in structured form -/
+inductive Ann
+  /-- the NAMES reply for `ch` (353.. 366) carrying these nicknames -/
+  | names (ch : Str) (nicks : List Str)
+  /-- `:<nick>!.. JOIN ch` -/
+  | join (ch nick : Str)
+  /-- `:<nick>!.. PART ch` -/
+  | part (ch nick : Str)
+  /-- `:.. KICK ch victim` -/
+  | kick (ch victim : Str)
+  /-- `:<old>!.. NICK new` -/
+  | nick (old new : Str)
+  deriving DecidableEq, Repr
+
+/-- what the rendering of an announcement needs besides the announcement itself -/
+structure Wire where
+  /-- source (`nick!~user@host`) of the acting connection, before the command -/
+  src : Str
+  /-- the PART reason -/
+  reason : Option Str := none
+  /-- the KICK comment -/
+  comment : Option Str := none
+
+/-- the line that carries an announcement (`names` is carried by several lines, see `namesReply`) -/
+def Ann.render (wr : Wire) : Ann → Str
+  | .join ch _ => C07.joinLine wr.src ch
+  | .part ch _ => partLine wr.src ch wr.reason
+  | .kick ch v => kickLine wr.src ch v wr.comment
+  | .nick _ new => nickLine wr.src new
+  | .names _ _ => []
+
+/-- how a client that follows channel `ch` updates its roster -/
+def applyAnn (ch : Str) (roster : List Str) : Ann → List Str
+  | .names c ns => if c = ch then ns else roster
+  | .join c n => if c = ch then (if n ∈ roster then roster else roster ++ [n]) else roster
+  | .part c n => if c = ch then roster.filter (· != n) else roster
+  | .kick c v => if c = ch then roster.filter (· != v) else roster
+  | .nick o n => roster.map (fun m => if m = o then n else m)
+
+def applyAnns (ch : Str) (roster : List Str) (as : List Ann) : List Str := as.foldl (applyAnn ch) roster
+
+theorem applyAnns_nil (ch : Str) (r : List Str) : applyAnns ch r [] = r := rfl
+theorem applyAnns_cons (ch : Str) (r : List Str) (a : Ann) (as : List Ann) :
+    applyAnns ch r (a :: as) = applyAnns ch (applyAnn ch r a) as := rfl
+theorem applyAnns_append (ch : Str) (r : List Str) (as bs : List Ann) :
+    applyAnns ch r (as ++ bs) = applyAnns ch (applyAnns ch r as) bs := by
+  simp [applyAnns, List.foldl_append]
+
+/-- announcements that only remove: PART and KICK lines -/
+def Ann.isRemoval : Ann → Bool
+  | .part _ _ => true
+  | .kick _ _ => true
+  | _ => false
+
+/-- announcements that only add to channel `ch`: JOIN lines, and NAMES replies of OTHER channels -/
+def Ann.isAddition (ch : Str) : Ann → Bool
+  | .join _ _ => true
+  | .names c _ => c != ch
+  | _ => false
+
+theorem mem_applyAnns_removals (ch : Str) :
+    ∀ (as : List Ann) (r : List Str), (∀ a, a ∈ as → a.isRemoval = true) →
+      ∀ j, j ∈ applyAnns ch r as ↔ j ∈ r ∧ Ann.part ch j ∉ as ∧ Ann.kick ch j ∉ as := by
+  intro as
+  induction as with
+  | nil => intro r _ j; simp [applyAnns]
+  | cons a as ih =>
+    intro r hall j
+    rw [applyAnns_cons, ih _ (fun b hb => hall b (List.mem_cons_of_mem _ hb))]
+    have ha := hall a List.mem_cons_self
+    cases a with
+    | names c ns => cases ha
+    | join c k => cases ha
+    | nick o k => cases ha
+    | part c k =>
+      simp only [applyAnn, List.mem_cons, not_or]
+      by_cases e : c = ch
+      · subst e
+        simp only [↓reduceIte, List.mem_filter, bne_iff_ne, ne_eq, Ann.part.injEq, true_and]
+        constructor
+        · rintro ⟨⟨h1, h2⟩, h3, h4⟩; exact ⟨h1, ⟨h2, h3⟩, by simp, h4⟩
+        · rintro ⟨h1, ⟨h2, h3⟩, _, h4⟩; exact ⟨⟨h1, h2⟩, h3, h4⟩
+      · have e' : ¬ ch = c := fun x => e x.symm
+        simp [e, e']
+    | kick c k =>
+      simp only [applyAnn, List.mem_cons, not_or]
+      by_cases e : c = ch
+      · subst e
+        simp only [↓reduceIte, List.mem_filter, bne_iff_ne, ne_eq, Ann.kick.injEq, true_and]
+        constructor
+        · rintro ⟨⟨h1, h2⟩, h3, h4⟩; exact ⟨h1, ⟨by simp, h3⟩, h2, h4⟩
+        · rintro ⟨h1, ⟨_, h3⟩, h2, h4⟩; exact ⟨⟨h1, h2⟩, h3, h4⟩
+      · have e' : ¬ ch = c := fun x => e x.symm
+        simp [e, e']
+
+theorem mem_applyAnns_additions (ch : Str) :
+    ∀ (as : List Ann) (r : List Str), (∀ a, a ∈ as → a.isAddition ch = true) →
+      ∀ j, j ∈ applyAnns ch r as ↔ j ∈ r ∨ Ann.join ch j ∈ as := by
+  intro as
+  induction as with
+  | nil => intro r _ j; simp [applyAnns]
+  | cons a as ih =>
+    intro r hall j
+    rw [applyAnns_cons, ih _ (fun b hb => hall b (List.mem_cons_of_mem _ hb))]
+    have ha := hall a List.mem_cons_self
+    cases a with
+    | part c k => cases ha
+    | kick c k => cases ha
+    | nick o k => cases ha
+    | names c ns =>
+      have e : ¬ c = ch := by simpa [Ann.isAddition] using ha
+      simp [applyAnn, e]
+    | join c k =>
+      simp only [applyAnn, List.mem_cons]
+      by_cases e : c = ch
+      · subst e
+        simp only [↓reduceIte, Ann.join.injEq, true_and]
+        by_cases hk : k ∈ r
+        · simp only [hk, ↓reduceIte]
+          constructor
+          · rintro (h1 | h1); exact Or.inl h1; exact Or.inr (Or.inr h1)
+          · rintro (h1 | h1 | h1)
+            · exact Or.inl h1
+            · subst h1; exact Or.inl hk
+            · exact Or.inr h1
+        · simp only [hk, ↓reduceIte, List.mem_append, List.mem_singleton]
+          constructor
+          · rintro ((h1 | h1) | h1)
+            · exact Or.inl h1
+            · exact Or.inr (Or.inl h1)
+            · exact Or.inr (Or.inr h1)
+          · rintro (h1 | h1 | h1)
+            · exact Or.inl (Or.inl h1)
+            · exact Or.inl (Or.inr h1)
+            · exact Or.inr h1
+      · have e' : ¬ ch = c := fun x => e x.symm
+        simp [e, e']
+
+/-- the same NICK announcement received once or several times -/
+theorem mem_applyAnns_nick (ch : Str) (o k : Str) (hok : o ≠ k) :
+    ∀ (as : List Ann) (r : List Str), (∀ a, a ∈ as → a = Ann.nick o k) → as ≠ [] →
+      applyAnns ch r as = r.map (fun m => if m = o then k else m) := by
+  intro as
+  induction as with
+  | nil => intro r _ h; exact absurd rfl h
+  | cons a as ih =>
+    intro r hall _
+    rw [applyAnns_cons, hall a List.mem_cons_self]
+    by_cases hn : as = []
+    · subst hn; rfl
+    · rw [ih _ (fun b hb => hall b (List.mem_cons_of_mem _ hb)) hn]
+      simp only [applyAnn, List.map_map]
+      apply List.map_congr_left
+      intro m _
+      simp only [Function.comp]
+      by_cases e : m = o
+      · simp [e, Ne.symm hok]
+      · simp [e]
+
+/-! ### the four membership-changing commands and what they deliver -/
+
+inductive MCmd
+  | join (chs : List Str) (keys : Option (List Str))
+  | part (chs : List Str) (reason : Option Str)
+  | kick (ch : Str) (users : List Str) (comment : Option Str)
+  | nick (new : Str) (msg : Message)
+
+def MCmd.run (cfg : Cfg) (c : Nat) : MCmd → Ctx → Ctx
+  | .join chs keys, x => processJoin cfg c chs keys x
+  | .part chs reason, x => processPart cfg c chs reason x
+  | .kick ch us comment, x => processKick cfg c ch us comment x
+  | .nick new msg, x => processNick cfg c new msg x
+
+/-- the nickname of connection `c` (`[]` if it has none) -/
+def actor (x : Ctx) (c : Nat) : Str := ((x.conn c).nick).getD []
+
+/-- the accepted channels of `JOIN chs keys` on connection `c` -/
+def acceptedOf (cfg : Cfg) (c : Nat) (chs : List Str) (keys : Option (List Str)) (x : Ctx) : List Str :=
+  match (x.conn c).nick with
+  | none => []
+  | some n =>
+    match Map.lookup n x.w.users with
+    | none => []
+    | some u => accepted (joinDecisions cfg c chs keys x n u) chs
+
+/-- a registered NICK renames iff the nickname differs from the own one and is not in use -/
+def nickAccepted (x : Ctx) (c : Nat) (new : Str) : Bool :=
+  new != actor x c && !(Map.contains new x.w.users)
+
+/-- the structured announcements a command pushes into queues, with the receiving connection -/
+def MCmd.queuedAnns (cfg : Cfg) (c : Nat) (cmd : MCmd) (x : Ctx) : List (Nat × Ann) :=
+  match cmd with
+  | .join chs keys =>
+    joinQueue (processJoin cfg c chs keys x).w (actor x c) (fun ch => Ann.join ch (actor x c))
+      (acceptedOf cfg c chs keys x)
+  | .part chs _ => partQueue x.w (actor x c) (fun ch => Ann.part ch (actor x c)) [] chs
+  | .kick ch us comment =>
+    kickQueue x.w (processKick cfg c ch us comment x).w ch (fun v => Ann.kick ch v) (kickedOf x c ch us)
+  | .nick new msg =>
+    if nickAccepted x c new then
+      (Map.keys (processNick cfg c new msg x).w.users).map (fun m =>
+        (ownerOf (processNick cfg c new msg x).w m, Ann.nick (actor x c) new))
+    else []
+
+/-- the structured announcements a command writes to the acting connection's own socket: for every
+    accepted channel of a JOIN the JOIN line and the NAMES reply -/
+def MCmd.directAnns (cfg : Cfg) (c : Nat) (cmd : MCmd) (x : Ctx) : List Ann :=
+  match cmd with
+  | .join chs keys =>
+    (acceptedOf cfg c chs keys x).flatMap (fun ch =>
+      [Ann.join ch (actor x c), Ann.names ch (members (processJoin cfg c chs keys x).w ch)])
+  | _ => []
+
+/-- everything connection `o` is told by one command issued on connection `c` -/
+def MCmd.deliveredTo (cfg : Cfg) (c : Nat) (cmd : MCmd) (x : Ctx) (o : Nat) : List Ann :=
+  (if o = c then cmd.directAnns cfg c x else []) ++
+    ((cmd.queuedAnns cfg c x).filter (fun p => p.1 == o)).map (·.2)
+
+/-- the line carrying a queued announcement of this command (`src` = source of the acting connection
+    before the command); for NICK it is the received message re-rendered -/
+def MCmd.line (cmd : MCmd) (src : Str) : Ann → Str :=
+  match cmd with
+  | .join _ _ => Ann.render { src := src }
+  | .part _ reason => Ann.render { src := src, reason := reason }
+  | .kick _ _ comment => Ann.render { src := src, comment := comment }
+  | .nick _ msg => fun _ => msg.render src
+
+theorem partQueue_map {β γ : Type} (w : World) (n : Str) (f : Str → β) (g : β → γ) :
+    ∀ (chs seen : List Str), (partQueue w n f seen chs).map (fun p => (p.1, g p.2)) =
+      partQueue w n (fun ch => g (f ch)) seen chs := by
+  intro chs
+  induction chs with
+  | nil => intro seen; rfl
+  | cons a rest ih =>
+    intro seen
+    simp only [partQueue, List.map_append, ih]
+    congr 1
+    split <;> simp
+
+theorem joinQueue_map {β γ : Type} (w : World) (n : Str) (f : Str → β) (g : β → γ) (acc : List Str) :
+    (joinQueue w n f acc).map (fun p => (p.1, g p.2)) = joinQueue w n (fun ch => g (f ch)) acc := by
+  simp [joinQueue, List.map_flatMap]
+  rfl
+
+theorem kickQueue_map {β γ : Type} (w w' : World) (ch : Str) (f : Str → β) (g : β → γ)
+    (kicked : List Str) :
+    (kickQueue w w' ch f kicked).map (fun p => (p.1, g p.2)) =
+      kickQueue w w' ch (fun v => g (f v)) kicked := by
+  simp [kickQueue, List.map_flatMap]
+  rfl
+
+theorem acceptedOf_eq {cfg : Cfg} {c : Nat} {chs : List Str} {keys : Option (List Str)} {x : Ctx}
+    {n : Str} {u : User} (hn : (x.conn c).nick = some n) (hu : Map.lookup n x.w.users = some u) :
+    acceptedOf cfg c chs keys x = accepted (joinDecisions cfg c chs keys x n u) chs := by
+  unfold acceptedOf; rw [hn]; dsimp only; rw [hu]
+
+theorem actor_eq {x : Ctx} {c : Nat} {n : Str} (hn : (x.conn c).nick = some n) : actor x c = n := by
+  unfold actor; rw [hn]; rfl
+
+/-- the lines the handlers queue ARE the renderings of the structured announcements -/
+theorem queued_eq_rendered {cfg : Cfg} {c : Nat} (cmd : MCmd) {x : Ctx} {n : Str} (h : InvCore x.w)
+    (hl : Live x.w c) (ha : (x.conn c).authenticated = true) (hn : (x.conn c).nick = some n) :
+    (cmd.run cfg c x).queued = x.queued ++
+      (cmd.queuedAnns cfg c x).map (fun p => (p.1, cmd.line (x.conn c).source p.2)) := by
+  obtain ⟨n', u, hn', hu, _⟩ := sender_of_auth h hl ha
+  rw [hn] at hn'; cases hn'
+  cases cmd with
+  | join chs keys =>
+    obtain ⟨_, _, _, _, hq⟩ := processJoin_closed (cfg := cfg) (channels := chs) (keys := keys) h hn hu
+    simp only [MCmd.run, MCmd.queuedAnns, MCmd.line, actor_eq hn, acceptedOf_eq hn hu, joinQueue_map]
+    exact hq
+  | part chs reason =>
+    simp only [MCmd.run, MCmd.queuedAnns, MCmd.line, actor_eq hn, partQueue_map]
+    exact processPart_queued h hn
+  | kick ch us comment =>
+    simp only [MCmd.run, MCmd.queuedAnns, MCmd.line, kickQueue_map]
+    exact processKick_queued h hn
+  | nick new msg =>
+    simp only [MCmd.run, MCmd.queuedAnns, MCmd.line, nickAccepted, actor_eq hn]
+    by_cases hne : new = n
+    · have := (processNick_noop_queued (cfg := cfg) (msg := msg) ha hn (Or.inl hne)).1
+      rw [this]; simp [hne]
+    · by_cases hc : Map.contains new x.w.users = true
+      · have := (processNick_noop_queued (cfg := cfg) (msg := msg) ha hn (Or.inr hc)).1
+        rw [this]; simp [hc]
+      · have hc' : Map.contains new x.w.users = false := by simpa using hc
+        have hb : (new != n) = true := by simpa using hne
+        rw [(processNick_queued (cfg := cfg) (msg := msg) ha hn hne hc' hu).1]
+        simp [hb, hc', List.map_map, Function.comp_def]
+
+/-- user `m` is owned by connection `o` -/
+def Obs (w : World) (o : Nat) (m : Str) : Prop := ∃ u, Map.lookup m w.users = some u ∧ u.owner = o
+
+theorem Obs.ownerOf {w : World} {o : Nat} {m : Str} (h : Obs w o m) : ownerOf w m = o := by
+  obtain ⟨u, hu, ho⟩ := h
+  rw [ownerOf_of_lookup hu, ho]
+
+theorem Obs.contains {w : World} {o : Nat} {m : Str} (h : Obs w o m) : Map.contains m w.users = true := by
+  obtain ⟨u, hu, _⟩ := h
+  exact (Map.contains_iff _ _).mpr ⟨u, hu⟩
+
+theorem Obs.of_frame {w w' : World} (f : Frame w w') {o : Nat} {m : Str} (h : Obs w o m) : Obs w' o m := by
+  obtain ⟨u, hu, ho⟩ := h
+  obtain ⟨u', hu', _, ho', _⟩ := f.lookup_fwd hu
+  exact ⟨u', hu', ho'.trans ho⟩
+
+theorem Obs.of_frame_bwd {w w' : World} (f : Frame w w') {o : Nat} {m : Str} (h : Obs w' o m) :
+    Obs w o m := by
+  obtain ⟨u', hu', ho'⟩ := h
+  obtain ⟨u, hu, _, ho, _⟩ := f.lookup_bwd hu'
+  exact ⟨u, hu, ho.symm.trans ho'⟩
+
+theorem Obs.unique {w : World} (h : InvCore w) {o : Nat} {m m' : Str} (h1 : Obs w o m) (h2 : Obs w o m') :
+    m = m' := by
+  obtain ⟨u, hu, ho⟩ := h1
+  obtain ⟨v, hv, ho'⟩ := h2
+  exact owner_inj h hu hv (ho.trans ho'.symm)
+
+theorem mem_delivered {β : Type} (Q : List (Nat × β)) (o : Nat) (a : β) :
+    a ∈ (Q.filter (fun p => p.1 == o)).map (·.2) ↔ (o, a) ∈ Q := by
+  simp only [List.mem_map, List.mem_filter, beq_iff_eq]
+  constructor
+  · rintro ⟨⟨o', a'⟩, ⟨hp, rfl⟩, rfl⟩; exact hp
+  · intro hp; exact ⟨(o, a), ⟨hp, rfl⟩, rfl⟩
+
+/-- **roster step, PART** -/
+theorem roster_part {cfg : Cfg} {c : Nat} {chs : List Str} {reason : Option Str} {x : Ctx} {n : Str}
+    (h : InvCore x.w) (hl : Live x.w c) (ha : (x.conn c).authenticated = true)
+    (hn : (x.conn c).nick = some n) (ch : Str) (o : Nat) (r : List Str)
+    (hb : ∃ m, Obs x.w o m ∧ x.w.memOf ch m = true) (hr : ∀ k, k ∈ r ↔ x.w.memOf ch k = true) (k : Str) :
+    k ∈ applyAnns ch r ((MCmd.part chs reason).deliveredTo cfg c x o) ↔
+      (processPart cfg c chs reason x).w.memOf ch k = true := by
+  obtain ⟨n', hn', e⟩ := part_membership_effect (cfg := cfg) (channels := chs) (reason := reason) h hl ha
+  rw [hn] at hn'; cases hn'
+  obtain ⟨m, hobs, hm⟩ := hb
+  simp only [MCmd.deliveredTo, MCmd.directAnns, ite_self, List.nil_append, MCmd.queuedAnns, actor_eq hn]
+  have hshape : ∀ a, (o, a) ∈ partQueue x.w n (fun ch => Ann.part ch n) [] chs →
+      ∃ ch', a = Ann.part ch' n := by
+    intro a ha'
+    obtain ⟨ch', _, _, _, h4, _⟩ := (mem_partQueue_iff _ _ _ _ _ _ _).mp ha'
+    exact ⟨ch', h4⟩
+  rw [mem_applyAnns_removals ch _ r (by
+    intro a ha'
+    obtain ⟨ch', rfl⟩ := hshape a ((mem_delivered _ _ _).mp ha')
+    rfl)]
+  rw [mem_delivered, mem_delivered, hr, e]
+  have hk : (o, Ann.kick ch k) ∉ partQueue x.w n (fun ch => Ann.part ch n) [] chs := by
+    intro hq; obtain ⟨_, hq'⟩ := hshape _ hq; cases hq'
+  have hp : (o, Ann.part ch k) ∈ partQueue x.w n (fun ch => Ann.part ch n) [] chs ↔
+      (k = n ∧ ch ∈ chs ∧ x.w.memOf ch n = true) := by
+    rw [mem_partQueue_iff]
+    constructor
+    · rintro ⟨ch', h1, _, h3, h4, _⟩
+      cases h4
+      exact ⟨rfl, h1, (mem_members_iff _ _ _).mp h3⟩
+    · rintro ⟨rfl, h1, h3⟩
+      exact ⟨ch, h1, List.not_mem_nil, (mem_members_iff _ _ _).mpr h3, rfl, m,
+        (mem_members_iff _ _ _).mpr hm, hobs.ownerOf⟩
+  rw [hp]
+  constructor
+  · rintro ⟨h1, h2, _⟩
+    exact ⟨h1, fun ⟨h3, h4⟩ => h2 ⟨h4, h3, h4 ▸ h1⟩⟩
+  · rintro ⟨h1, h2⟩
+    exact ⟨h1, fun ⟨h3, h4, _⟩ => h2 ⟨h4, h3⟩, hk⟩
+
+/-- **roster step, KICK** (any number of victims) -/
+theorem roster_kick {cfg : Cfg} {c : Nat} {chn : Str} {us : List Str} {comment : Option Str} {x : Ctx}
+    {n : Str} (h : InvCore x.w) (hl : Live x.w c) (ha : (x.conn c).authenticated = true)
+    (hn : (x.conn c).nick = some n) (ch : Str) (o : Nat) (r : List Str)
+    (haft : ∃ m, Obs (processKick cfg c chn us comment x).w o m ∧
+      (processKick cfg c chn us comment x).w.memOf ch m = true)
+    (hr : ∀ k, k ∈ r ↔ x.w.memOf ch k = true) (k : Str) :
+    k ∈ applyAnns ch r ((MCmd.kick chn us comment).deliveredTo cfg c x o) ↔
+      (processKick cfg c chn us comment x).w.memOf ch k = true := by
+  obtain ⟨n', hn', _, f, e⟩ := kick_all (cfg := cfg) (channel := chn) (kickUsers := us) (comment := comment) h hl ha
+  rw [hn] at hn'; cases hn'
+  obtain ⟨m, hobs, hm⟩ := haft
+  simp only [MCmd.deliveredTo, MCmd.directAnns, ite_self, List.nil_append, MCmd.queuedAnns]
+  have hshape : ∀ a, (o, a) ∈ kickQueue x.w (processKick cfg c chn us comment x).w chn
+      (fun v => Ann.kick chn v) (kickedOf x c chn us) → ∃ v, a = Ann.kick chn v := by
+    intro a ha'
+    obtain ⟨v, _, h2, _⟩ := (mem_kickQueue_iff _ _ _ _ _ _ _).mp ha'
+    exact ⟨v, h2⟩
+  rw [mem_applyAnns_removals ch _ r (by
+    intro a ha'
+    obtain ⟨v, rfl⟩ := hshape a ((mem_delivered _ _ _).mp ha')
+    rfl)]
+  rw [mem_delivered, mem_delivered, hr, e]
+  have hp : (o, Ann.part ch k) ∉ kickQueue x.w (processKick cfg c chn us comment x).w chn
+      (fun v => Ann.kick chn v) (kickedOf x c chn us) := by
+    intro hq; obtain ⟨_, hq'⟩ := hshape _ hq; cases hq'
+  have hkk : (o, Ann.kick ch k) ∈ kickQueue x.w (processKick cfg c chn us comment x).w chn
+      (fun v => Ann.kick chn v) (kickedOf x c chn us) ↔ (ch = chn ∧ k ∈ kickedOf x c chn us) := by
+    rw [mem_kickQueue_iff]
+    constructor
+    · rintro ⟨v, h1, h2, _⟩
+      cases h2
+      exact ⟨rfl, h1⟩
+    · rintro ⟨rfl, h1⟩
+      refine ⟨k, h1, rfl, m, Or.inl ((mem_members_iff _ _ _).mpr hm), ?_⟩
+      rw [← ownerOf_frame f m]; exact hobs.ownerOf
+  rw [hkk, mem_kickedOf_iff hn]
+  constructor
+  · rintro ⟨h1, _, h3⟩
+    exact ⟨h1, fun ⟨h4, h5, h6⟩ => h3 ⟨h4, h5, h6⟩⟩
+  · rintro ⟨h1, h2⟩
+    exact ⟨h1, hp, fun ⟨h4, h5, h6⟩ => h2 ⟨h4, h5, h6⟩⟩
+
+/-- **roster step, JOIN** (any channel list) -/
+theorem roster_join {cfg : Cfg} {c : Nat} {chs : List Str} {keys : Option (List Str)} {x : Ctx} {n : Str}
+    (h : InvCore x.w) (hl : Live x.w c) (ha : (x.conn c).authenticated = true)
+    (hn : (x.conn c).nick = some n) (ch : Str) (o : Nat) (r : List Str)
+    (hb : ∃ m, Obs x.w o m ∧ x.w.memOf ch m = true) (hr : ∀ k, k ∈ r ↔ x.w.memOf ch k = true) (k : Str) :
+    k ∈ applyAnns ch r ((MCmd.join chs keys).deliveredTo cfg c x o) ↔
+      (processJoin cfg c chs keys x).w.memOf ch k = true := by
+  obtain ⟨n', u, hn', hu, hown⟩ := sender_of_auth h hl ha
+  rw [hn] at hn'; cases hn'
+  obtain ⟨h1, f1, e1, _, _⟩ := processJoin_closed (cfg := cfg) (channels := chs) (keys := keys) h hn hu
+  obtain ⟨m, hobs, hm⟩ := hb
+  have hobsn : Obs x.w c n := ⟨u, hu, hown⟩
+  have hdec : DecOK x.w n (joinDecisions cfg c chs keys x n u) chs :=
+    joinDecide_ok cfg x.w (x.conn c) n u.invitedTo chs (joinKeyList keys) u.channels.length
+  have hnot := accepted_not_member x.w n _ _ hdec
+  simp only [MCmd.deliveredTo, MCmd.directAnns, MCmd.queuedAnns, actor_eq hn, acceptedOf_eq hn hu]
+  generalize hacc : accepted (joinDecisions cfg c chs keys x n u) chs = acc at hnot
+  generalize hy : (processJoin cfg c chs keys x).w = yw at h1 f1 e1
+  have hjoined : ∀ ch', Memb.joined (joinDecisions cfg c chs keys x n u) chs ch' = true ↔ ch' ∈ acc := by
+    intro ch'; rw [← hacc, mem_accepted_iff]
+  -- shape of what is delivered
+  have hdir : ∀ a, a ∈ acc.flatMap (fun ch' => [Ann.join ch' n, Ann.names ch' (members yw ch')]) →
+      ∃ ch', ch' ∈ acc ∧ (a = Ann.join ch' n ∨ a = Ann.names ch' (members yw ch')) := by
+    intro a ha'
+    obtain ⟨ch', h1', h2'⟩ := List.mem_flatMap.mp ha'
+    simp only [List.mem_cons, List.not_mem_nil, or_false] at h2'
+    exact ⟨ch', h1', h2'⟩
+  have hque : ∀ a, (o, a) ∈ joinQueue yw n (fun ch' => Ann.join ch' n) acc →
+      ∃ ch', ch' ∈ acc ∧ a = Ann.join ch' n := by
+    intro a ha'
+    obtain ⟨ch', h1', h2', _⟩ := (mem_joinQueue_iff _ _ _ _ _ _).mp ha'
+    exact ⟨ch', h1', h2'⟩
+  rw [mem_applyAnns_additions ch _ r (by
+    intro a ha'
+    rcases List.mem_append.mp ha' with ha' | ha'
+    · split at ha'
+      · rename_i hoc
+        obtain ⟨ch', h1', h2'⟩ := hdir a ha'
+        rcases h2' with rfl | rfl
+        · rfl
+        · have hmn : m = n := Obs.unique h hobs (hoc ▸ hobsn)
+          have : ch' ≠ ch := by
+            rintro rfl
+            have := hnot ch' h1'
+            rw [← hmn, hm] at this; cases this
+          simpa [Ann.isAddition] using this
+      · cases ha'
+    · obtain ⟨ch', _, rfl⟩ := hque a ((mem_delivered _ _ _).mp ha')
+      rfl)]
+  rw [hr, e1, List.mem_append, mem_delivered]
+  have key : ((Ann.join ch k ∈ if o = c then
+        acc.flatMap (fun ch' => [Ann.join ch' n, Ann.names ch' (members yw ch')]) else []) ∨
+      (o, Ann.join ch k) ∈ joinQueue yw n (fun ch' => Ann.join ch' n) acc) ↔ (k = n ∧ ch ∈ acc) := by
+    constructor
+    · rintro (hh | hh)
+      · split at hh
+        · obtain ⟨ch', h1', h2'⟩ := hdir _ hh
+          rcases h2' with h2' | h2'
+          · cases h2'; exact ⟨rfl, h1'⟩
+          · cases h2'
+        · cases hh
+      · obtain ⟨ch', h1', h2'⟩ := hque _ hh
+        cases h2'; exact ⟨rfl, h1'⟩
+    · rintro ⟨rfl, hch⟩
+      by_cases hoc : o = c
+      · left
+        rw [if_pos hoc]
+        exact List.mem_flatMap.mpr ⟨ch, hch, List.mem_cons_self⟩
+      · right
+        refine (mem_joinQueue_iff _ _ _ _ _ _).mpr ⟨ch, hch, rfl, m, ?_, ?_, ?_⟩
+        · rw [mem_members_iff, e1, hm]; rfl
+        · rintro rfl
+          exact hoc (hobs.ownerOf.symm.trans hobsn.ownerOf)
+        · rw [ownerOf_frame f1]; exact hobs.ownerOf
+  rw [key, ← hjoined]
+  simp only [Bool.or_eq_true, Bool.and_eq_true, decide_eq_true_eq]
+
+/-- **roster step, NICK** (by anybody, the observer itself included) -/
+theorem roster_nick {cfg : Cfg} {c : Nat} {new : Str} {msg : Message} {x : Ctx} {n : Str}
+    (h : InvCore x.w) (hl : Live x.w c) (ha : (x.conn c).authenticated = true)
+    (hn : (x.conn c).nick = some n) (ch : Str) (o : Nat) (r : List Str)
+    (haft : ∃ m, Obs (processNick cfg c new msg x).w o m ∧
+      (processNick cfg c new msg x).w.memOf ch m = true)
+    (hr : ∀ k, k ∈ r ↔ x.w.memOf ch k = true) (k : Str) :
+    k ∈ applyAnns ch r ((MCmd.nick new msg).deliveredTo cfg c x o) ↔
+      (processNick cfg c new msg x).w.memOf ch k = true := by
+  obtain ⟨n', u, hn', hu, _⟩ := sender_of_auth h hl ha
+  rw [hn] at hn'; cases hn'
+  simp only [MCmd.deliveredTo, MCmd.directAnns, ite_self, List.nil_append, MCmd.queuedAnns, nickAccepted,
+    actor_eq hn]
+  by_cases hne : new = n
+  · rw [(processNick_noop_queued (cfg := cfg) (msg := msg) ha hn (Or.inl hne)).2]
+    simp [hne, applyAnns, hr]
+  · by_cases hc : Map.contains new x.w.users = true
+    · rw [(processNick_noop_queued (cfg := cfg) (msg := msg) ha hn (Or.inr hc)).2]
+      simp [hc, applyAnns, hr]
+    · have hc' : Map.contains new x.w.users = false := by simpa using hc
+      have hb : (new != n) = true := by simpa using hne
+      simp only [hb, hc', Bool.not_false, Bool.and_self, ↓reduceIte]
+      obtain ⟨m, hobs, hm⟩ := haft
+      generalize hQ : (Map.keys (processNick cfg c new msg x).w.users).map (fun m =>
+        (ownerOf (processNick cfg c new msg x).w m, Ann.nick n new)) = Q
+      have hshape : ∀ a, (o, a) ∈ Q → a = Ann.nick n new := by
+        intro a ha'
+        rw [← hQ] at ha'
+        obtain ⟨_, _, he⟩ := List.mem_map.mp ha'
+        cases he; rfl
+      have hmem : (o, Ann.nick n new) ∈ Q := by
+        rw [← hQ]
+        exact List.mem_map.mpr ⟨m, Map.mem_keys_of_contains hobs.contains, by rw [hobs.ownerOf]⟩
+      rw [mem_applyAnns_nick ch n new (fun e => hne e.symm) _ r
+        (fun a ha' => hshape a ((mem_delivered _ _ _).mp ha'))
+        (by
+          intro hnil
+          have := (mem_delivered Q o (Ann.nick n new)).mpr hmem
+          rw [hnil] at this; cases this)]
+      rw [IP.nick_rename_memOf (cfg := cfg) (msg := msg) h ha hn hne hc' hu ch k]
+      have hnew : x.w.memOf ch new = false := by
+        cases hq : x.w.memOf ch new with
+        | false => rfl
+        | true =>
+          have := (InvCore.memInv h).memberIsUser ch new hq
+          rw [hc'] at this; cases this
+      simp only [List.mem_map, hr]
+      by_cases e1 : k = new
+      · subst e1
+        simp only [↓reduceIte]
+        constructor
+        · rintro ⟨j, hj, hjk⟩
+          by_cases e2 : j = n
+          · subst e2; exact hj
+          · rw [if_neg e2] at hjk; subst hjk; rw [hnew] at hj; cases hj
+        · intro ho; exact ⟨n, ho, by simp⟩
+      · rw [if_neg e1]
+        by_cases e2 : k = n
+        · subst e2
+          simp only [↓reduceIte, Bool.false_eq_true, iff_false, not_exists, not_and]
+          intro j _ hjk
+          by_cases e3 : j = k
+          · rw [if_pos e3] at hjk; exact e1 hjk.symm
+          · rw [if_neg e3] at hjk; exact e3 hjk
+        · rw [if_neg e2]
+          constructor
+          · rintro ⟨j, hj, hjk⟩
+            by_cases e3 : j = n
+            · rw [if_pos e3] at hjk; exact absurd hjk.symm e1
+            · rw [if_neg e3] at hjk; subst hjk; exact hj
+          · intro hk; exact ⟨k, hk, by simp [e2]⟩
+
+theorem applyAnns_own_join (ch n : Str) (mem : Str → List Str) :
+    ∀ (acc : List Str) (r : List Str),
+      applyAnns ch r (acc.flatMap (fun ch' => [Ann.join ch' n, Ann.names ch' (mem ch')])) =
+        if ch ∈ acc then mem ch else r := by
+  intro acc
+  induction acc with
+  | nil => intro r; rfl
+  | cons a rest ih =>
+    intro r
+    rw [List.flatMap_cons, applyAnns_append, ih]
+    by_cases e : a = ch
+    · subst e
+      simp [applyAnns, applyAnn]
+    · have e' : ¬ ch = a := fun x => e x.symm
+      simp [applyAnns, applyAnn, e, e']
+
+/-- **the roster right after the own JOIN**: whatever the client believed before, after the burst of
+    its own accepted JOIN of `ch` (JOIN line, NAMES reply) its roster is the member list of `ch` -/
+theorem roster_own_join {cfg : Cfg} {c : Nat} {chs : List Str} {keys : Option (List Str)} {x : Ctx}
+    {n : Str} (h : InvCore x.w) (hl : Live x.w c) (ha : (x.conn c).authenticated = true)
+    (hn : (x.conn c).nick = some n) {ch : Str} (hch : ch ∈ acceptedOf cfg c chs keys x) (r : List Str) :
+    applyAnns ch r ((MCmd.join chs keys).deliveredTo cfg c x c) =
+      members (processJoin cfg c chs keys x).w ch := by
+  obtain ⟨n', u, hn', hu, hown⟩ := sender_of_auth h hl ha
+  rw [hn] at hn'; cases hn'
+  obtain ⟨_, f1, _, _, _⟩ := processJoin_closed (cfg := cfg) (channels := chs) (keys := keys) h hn hu
+  have hy : InvCore (processJoin cfg c chs keys x).w := (invCore_processJoin h hl ha).1
+  have hobsn : Obs (processJoin cfg c chs keys x).w c n := Obs.of_frame f1 ⟨u, hu, hown⟩
+  simp only [MCmd.deliveredTo, MCmd.directAnns, MCmd.queuedAnns, actor_eq hn, ↓reduceIte]
+  have hq : ((joinQueue (processJoin cfg c chs keys x).w n (fun ch' => Ann.join ch' n)
+      (acceptedOf cfg c chs keys x)).filter (fun p => p.1 == c)).map (·.2) = [] := by
+    rw [List.eq_nil_iff_forall_not_mem]
+    intro a ha'
+    obtain ⟨ch', _, _, m, hm, hne, ho⟩ := (mem_joinQueue_iff _ _ _ _ _ _).mp ((mem_delivered _ _ _).mp ha')
+    have hmu := members_are_users (InvCore.memInv hy) hm
+    exact hne (ownerOf_inj hy hmu hobsn.contains (ho.trans hobsn.ownerOf.symm))
+  rw [hq, List.append_nil, applyAnns_own_join ch n (members (processJoin cfg c chs keys x).w), if_pos hch]
+
+/-! ### command sequences -/
+
+/-- connection `o` owns a user that is on channel `ch` -/
+def OnChannel (w : World) (ch : Str) (o : Nat) : Prop := ∃ m, Obs w o m ∧ C04.Member w ch m
+
+/-- a sequence of commands `(connection, command)`, run one after the other -/
+def runCmds (cfg : Cfg) : List (Nat × MCmd) → Ctx → Ctx
+  | [], x => x
+  | (c, cmd) :: rest, x => runCmds cfg rest (cmd.run cfg c x)
+
+/-- everything connection `o` is told along the run, in order -/
+def deliveredAlong (cfg : Cfg) (o : Nat) : List (Nat × MCmd) → Ctx → List Ann
+  | [], _ => []
+  | (c, cmd) :: rest, x => cmd.deliveredTo cfg c x o ++ deliveredAlong cfg o rest (cmd.run cfg c x)
+
+/-- the hypotheses on a run: every command is issued on a live registered connection, and `o`'s user is
+    on `ch` at every command boundary (in particular it does not disconnect: departures by disconnect
+    are not announced by this server and are excluded, as in the statement of the property) -/
+def Follows (cfg : Cfg) (ch : Str) (o : Nat) : List (Nat × MCmd) → Ctx → Prop
+  | [], x => OnChannel x.w ch o
+  | (c, cmd) :: rest, x =>
+    OnChannel x.w ch o ∧ Live x.w c ∧ (x.conn c).authenticated = true ∧
+      Follows cfg ch o rest (cmd.run cfg c x)
+
+theorem Follows.head {cfg : Cfg} {ch : Str} {o : Nat} {cmds : List (Nat × MCmd)} {x : Ctx}
+    (h : Follows cfg ch o cmds x) : OnChannel x.w ch o := by
+  cases cmds with
+  | nil => exact h
+  | cons p rest => exact h.1
+
+theorem invCore_run {cfg : Cfg} {c : Nat} {x : Ctx} (cmd : MCmd) (h : InvCore x.w) (hl : Live x.w c)
+    (ha : (x.conn c).authenticated = true) : InvCore (cmd.run cfg c x).w := by
+  cases cmd with
+  | join chs keys => exact (invCore_processJoin h hl ha).1
+  | part chs reason => exact (invCore_processPart h hl ha).1
+  | kick chn us comment => exact (invCore_processKick h hl ha).1
+  | nick new msg => exact (invCore_processNick h hl).1
+
+theorem onChannel_of {w : World} {ch m : Str} {o : Nat}
+    (h1 : (Map.lookup m w.users).map (·.owner) = some o) (h2 : w.memOf ch m = true) : OnChannel w ch o := by
+  refine ⟨m, ?_, h2⟩
+  cases hu : Map.lookup m w.users with
+  | none => rw [hu] at h1; cases h1
+  | some u => rw [hu] at h1; exact ⟨u, hu, by simpa using h1⟩
+theorem live_of {w : World} {c : Nat} (h : w.conns.any (·.id == c) = true) : Live w c := by
+  obtain ⟨cn, h1, h2⟩ := List.any_eq_true.mp h
+  exact ⟨cn, h1, by simpa using h2⟩
+
+/-! ## a small concrete world: three registered users `al` (connection 1), `bo` (2), `cy` (3);
+    `al` creates `#c` (and so is founder + operator), then `bo` and `cy` join it -/
+
+namespace Ex
+
+def mkUser (owner : Nat) (nick : Str) : User :=
+  { hostname := str "h", name := str "u", realname := str "r", source := nick ++ str "!~u@h", modes := {},
+    history := ⟨str "u", str "h", str "r"⟩, owner := owner }
+def mkConn (id : Nat) (nick : Str) : Conn :=
+  { id := id, hostname := str "h", nick := some nick, name := some (str "u"), source := nick ++ str "!~u@h",
+    authenticated := true, registered := true, hasSender := false, hasQuitSender := false,
+    hasPingSender := false }
+
+def al : Str := str "al"
+def bo : Str := str "bo"
+def cy : Str := str "cy"
+def hc : Str := str "#c"
+
+def w0 : World :=
+  { users := [(al, mkUser 1 al), (bo, mkUser 2 bo), (cy, mkUser 3 cy)],
+    conns := [mkConn 1 al, mkConn 2 bo, mkConn 3 cy], connsCount := 3, maxUsers := 3 }
+
+theorem w0_users {n : Str} {u : User} (h : Map.lookup n w0.users = some u) :
+    (n = al ∧ u = mkUser 1 al) ∨ (n = bo ∧ u = mkUser 2 bo) ∨ (n = cy ∧ u = mkUser 3 cy) := by
+  simp only [w0, Map.lookup] at h
+  split at h
+  · rename_i e; cases h; exact Or.inl ⟨e.symm, rfl⟩
+  · split at h
+    · rename_i e; cases h; exact Or.inr (Or.inl ⟨e.symm, rfl⟩)
+    · split at h
+      · rename_i e; cases h; exact Or.inr (Or.inr ⟨e.symm, rfl⟩)
+      · cases h
+
+theorem w0_conns {cn : Conn} (h : cn ∈ w0.conns) :
+    cn = mkConn 1 al ∨ cn = mkConn 2 bo ∨ cn = mkConn 3 cy := by
+  simpa [w0] using h
+
+theorem invCore_w0 : InvCore w0 where
+  noPanic := rfl
+  usersNodup := by decide
+  chansNodup := by decide
+  connsNodup := by decide
+  membersNodup := fun ch C h => by cases h
+  userChansNodup := fun n u h => by
+    rcases w0_users h with ⟨_, rfl⟩ | ⟨_, rfl⟩ | ⟨_, rfl⟩ <;> exact List.nodup_nil
+  authOwns := fun cn hcn _ => by
+    rcases w0_conns hcn with rfl | rfl | rfl
+    · exact ⟨al, mkUser 1 al, rfl, rfl, rfl⟩
+    · exact ⟨bo, mkUser 2 bo, rfl, rfl, rfl⟩
+    · exact ⟨cy, mkUser 3 cy, rfl, rfl, rfl⟩
+  userOwned := fun n u h => by
+    rcases w0_users h with ⟨rfl, rfl⟩ | ⟨rfl, rfl⟩ | ⟨rfl, rfl⟩
+    · exact ⟨mkConn 1 al, by simp [w0], rfl, rfl, rfl⟩
+    · exact ⟨mkConn 2 bo, by simp [w0], rfl, rfl, rfl⟩
+    · exact ⟨mkConn 3 cy, by simp [w0], rfl, rfl, rfl⟩
+  memberSym := fun n u ch h => by
+    rcases w0_users h with ⟨rfl, rfl⟩ | ⟨rfl, rfl⟩ | ⟨rfl, rfl⟩ <;>
+      exact ⟨fun h => (by cases h), fun ⟨C, h, _⟩ => (by cases h)⟩
+  memberIsUser := fun ch C n h => by cases h
+  rankMirror := fun ch C h => by cases h
+  noEmptyAdHoc := fun ch C h => by cases h
+  invisibleCount := rfl
+  operatorsCount := rfl
+  wallopsSet := fun n => by
+    constructor
+    · intro h; cases h
+    · rintro ⟨u, h, hw⟩
+      rcases w0_users h with ⟨rfl, rfl⟩ | ⟨rfl, rfl⟩ | ⟨rfl, rfl⟩ <;> cases hw
+  maxUsers := by decide
+  resources := fun cn hcn hf => by
+    rcases w0_conns hcn with rfl | rfl | rfl <;> cases hf
+  slots := rfl
+  killedFlagged := fun n u h hk => by
+    rcases w0_users h with ⟨rfl, rfl⟩ | ⟨rfl, rfl⟩ | ⟨rfl, rfl⟩ <;> cases hk
+
+def cfg0 : Cfg := {}
+def ctx (w : World) : Ctx := ⟨w, [], []⟩
+
+def w1 : World := (processJoin cfg0 1 [hc] none (ctx w0)).w
+def w2 : World := (processJoin cfg0 2 [hc] none (ctx w1)).w
+/-- `#c` = al (founder, operator), bo, cy -/
+def w3 : World := (processJoin cfg0 3 [hc] none (ctx w2)).w
+
+theorem live_w0 (c : Nat) (hc : c = 1 ∨ c = 2 ∨ c = 3) : Live w0 c := by
+  rcases hc with rfl | rfl | rfl
+  · exact ⟨mkConn 1 al, by simp [w0], rfl⟩
+  · exact ⟨mkConn 2 bo, by simp [w0], rfl⟩
+  · exact ⟨mkConn 3 cy, by simp [w0], rfl⟩
+
+theorem inv_w1 : InvCore w1 ∧ SameConnIds w0 w1 :=
+  invCore_processJoin (x := ctx w0) invCore_w0 (live_w0 1 (by simp)) (by decide)
+theorem inv_w2 : InvCore w2 ∧ SameConnIds w1 w2 :=
+  invCore_processJoin (x := ctx w1) inv_w1.1 (Live.of_same inv_w1.2 (live_w0 2 (by simp))) (by decide)
+theorem inv_w3 : InvCore w3 ∧ SameConnIds w2 w3 :=
+  invCore_processJoin (x := ctx w2) inv_w2.1
+    (Live.of_same inv_w2.2 (Live.of_same inv_w1.2 (live_w0 3 (by simp)))) (by decide)
+theorem live_w3 (c : Nat) (hc : c = 1 ∨ c = 2 ∨ c = 3) : Live w3 c :=
+  Live.of_same inv_w3.2 (Live.of_same inv_w2.2 (Live.of_same inv_w1.2 (live_w0 c hc)))
+
+end Ex
 
 end Irc.C04A
